@@ -106,6 +106,8 @@ class ObservedStream:
                 raise MemoryError("simulated allocation failure in read()")
             if kind == "read-valueerror":
                 raise ValueError("simulated failure of a decoding layer")
+            if kind == "read-abort":
+                raise SimAbort("simulated interruption in read()")
             raise HarnessError("unknown read fault %r" % kind)
         return self._raw.read(*args)
 
@@ -123,6 +125,13 @@ class ObservedStream:
 
     def __exit__(self, *exc):
         self.close()
+
+
+class SimAbort(BaseException):
+    """An interruption that is not an Exception (the shape of
+    KeyboardInterrupt / SystemExit / GeneratorExit): clean-up written as
+    ``with`` / ``finally`` runs for it, clean-up written as ``except
+    Exception`` does not."""
 
 
 class FaultyFile:
@@ -144,6 +153,8 @@ class FaultyFile:
         if f is not None:
             w.event("line-fault", self._res, n)
             w.fired(f)
+            if f["kind"] == "line-abort":
+                raise SimAbort("simulated interruption while reading")
             raise OSError(errno.EIO, "simulated I/O error on read",
                           "res%d" % self._res)
 
